@@ -97,7 +97,7 @@ class Gen:
             items = [self.const() for _ in range(n)]
             return "(" + ", ".join(items) + ("," if n == 1 else "") + ")"
         if k == 10 and self.py2:
-            return self.pick(["1L", "0L", "-5L", "123456789012L", "0xFFFFFFFFFFFFL"])
+            return self.pick(["1L", "0L", "0L", "-5L", "123456789012L", "0xFFFFFFFFFFFFL", "2147483648L"])
         return str(self.i(0, 9))
 
     # -- expressions
